@@ -242,6 +242,14 @@ pub fn run(seed: u64, tier: &str, w: &mut dyn Write) -> usize {
                 n += 1;
             }
         }
+        // (c2) list-shape edits under fixed challenges: a missing commit-phase cap / beta must be an error
+        if !proof.commit_phase_merkle_caps.is_empty() {
+            let mut p2 = proof.clone();
+            p2.commit_phase_merkle_caps.pop();
+            let code = verify(&inst, &inst.openings, &chs, &p2);
+            writeln!(w, "c05 {si} fixed-challenges-drop-last-commit-cap = {} # code {code}", (code != 1 && code != 8) as u8).unwrap();
+            n += 1;
+        }
         // (d) a function of too high degree: commit polynomials of 2n coefficients but claim degree n
         if degree_bits >= 3 {
             let small_params = cfg.fri_params(degree_bits - 1, hiding);
